@@ -190,6 +190,65 @@ MEMORY_RENAME_GUARDS = [
 ]
 
 
+def _module_tree():
+    src_dir = os.path.join(os.environ.get("AIOFTP_REPO", "/repo"), "src")
+    with open(os.path.join(src_dir, "aioftp", "pathio.py")) as f:
+        return ast.parse(f.read())
+
+
+def universal_exception_facts():
+    """(classes re-raised unchanged, the rest of Exception is re-raised as PathIOError) - from the one try statement of
+    the wrapper in `universal_exception`; an unrecognised shape gives ([], False)"""
+    fn = next((n for n in _module_tree().body if isinstance(n, ast.FunctionDef) and n.name == "universal_exception"), None)
+    if fn is None:
+        return [], False
+    wrapper = next((n for n in fn.body if isinstance(n, ast.AsyncFunctionDef)), None)
+    if wrapper is None or len(wrapper.body) != 1 or not isinstance(wrapper.body[0], ast.Try):
+        return [], False
+    t = wrapper.body[0]
+    if t.finalbody or t.orelse or len(t.handlers) != 2 or ast.unparse(t.body[0]) != "return await coro(*args, **kwargs)" or len(t.body) != 1:
+        return [], False
+    h0, h1 = t.handlers
+    if not (len(h0.body) == 1 and isinstance(h0.body[0], ast.Raise) and h0.body[0].exc is None):
+        return [], False
+    names = [ast.unparse(e) for e in (h0.type.elts if isinstance(h0.type, ast.Tuple) else [h0.type])]
+    wraps = (
+        ast.unparse(h1.type) == "Exception"
+        and len(h1.body) == 1
+        and isinstance(h1.body[0], ast.Raise)
+        and isinstance(h1.body[0].exc, ast.Call)
+        and ast.unparse(h1.body[0].exc.func) == "errors.PathIOError"
+    )
+    return names, wraps
+
+
+def blocking_io_plain():
+    """`_blocking_io`'s wrapper is one statement: `return await <loop>.run_in_executor(...)` - no try, no shield, so a
+    cancellation of the awaiting task is a cancellation of the call as far as the caller is concerned"""
+    fn = next((n for n in _module_tree().body if isinstance(n, ast.FunctionDef) and n.name == "_blocking_io"), None)
+    wrapper = next((n for n in (fn.body if fn else []) if isinstance(n, ast.AsyncFunctionDef)), None)
+    if wrapper is None or len(wrapper.body) != 1:
+        return False
+    st = wrapper.body[0]
+    return (
+        isinstance(st, ast.Return)
+        and isinstance(st.value, ast.Await)
+        and isinstance(st.value.value, ast.Call)
+        and isinstance(st.value.value.func, ast.Attribute)
+        and st.value.value.func.attr == "run_in_executor"
+        and "shield" not in ast.unparse(st)
+    )
+
+
+def file_context_exit_returns_nothing():
+    """`AsyncPathIOContext.__aexit__` has no `return <value>`: it cannot swallow what the body raised"""
+    cls = next((n for n in _module_tree().body if isinstance(n, ast.ClassDef) and n.name == "AsyncPathIOContext"), None)
+    fn = next((n for n in (cls.body if cls else []) if isinstance(n, ast.AsyncFunctionDef) and n.name == "__aexit__"), None)
+    if fn is None:
+        return False
+    return not any(isinstance(n, ast.Return) and n.value is not None for n in ast.walk(fn))
+
+
 def _nats(s):
     return "[" + ", ".join(str(ord(c)) for c in s) + "]"
 
@@ -242,6 +301,15 @@ def gen_pathio():
         "/-- `MemoryPathIO._open` returns, on every path, a fresh `MemoryFile`, whose `seek`/`read`/`write` work from the",
         "    file's own position (exact shapes checked by the translator; any other shape gives `false`) -/",
         "def memoryFileOwnPosition : Bool := %s" % ("true" if memory_file_own_position() else "false"),
+        "",
+        "/-- `universal_exception`: the classes its wrapper re-raises unchanged -/",
+        "def universalExceptionPassThrough : List String := [%s]" % ", ".join('"%s"' % n for n in universal_exception_facts()[0]),
+        "/-- ... and every other `Exception` is re-raised as `errors.PathIOError` -/",
+        "def universalExceptionWrapsTheRest : Bool := %s" % ("true" if universal_exception_facts()[1] else "false"),
+        "/-- `_blocking_io` awaits `run_in_executor(...)` and nothing else (no try, no shield) -/",
+        "def blockingIoPlainAwait : Bool := %s" % ("true" if blocking_io_plain() else "false"),
+        "/-- `AsyncPathIOContext.__aexit__` returns nothing (it cannot swallow what the body of `async with` raised) -/",
+        "def fileContextExitReturnsNothing : Bool := %s" % ("true" if file_context_exit_returns_nothing() else "false"),
         "",
         "/-- `MemoryPathIO.rename` refuses, before it changes anything and in this order: a missing source; then, for",
         "    different paths, a missing destination parent, a destination parent that is no directory, and a source",
